@@ -14,6 +14,7 @@ RESTRICT_FLAGS = {"REMOVE_CPULESS": 1, "ADAPT_MISC": 2, "ADAPT_IO": 4, "BYNODESE
 TYPES = S.T
 
 FIXED_SYNTHETIC = [
+    "pack:4 [numa(indexes=2,0,3,1)] pu:2", "numa:4(indexes=3,2,1,0) core:2 pu:1", "pack:2 [numa(indexes=1,0)] core:2 [numa(indexes=3,2,5,4)] pu:1",
     "pack:2 [numa(memory=1024 memorysidecachesize=256)] core:2 pu:1", "pack:2 [numa(memorysidecachesize=1024)] [numa] core:2 pu:2",
     "numa:2(memorysidecachesize=4096) core:2 pu:1",
     "pack:2 [numa] core:2 [numa] pu:2", "pack:2 [numa] [numa] l2:2 [numa] pu:2",
@@ -166,8 +167,15 @@ def gen_call(rng):
         q = rng.random()
         if q < 0.55:
             parts.append("cs=" + set_expr(rng, "cs"))
-        elif q < 0.70:
+        elif q < 0.62:
             parts.append("ns=" + set_expr(rng, "ns"))
+        elif q < 0.70:
+            a, b = rng.sample(range(0, 6), 2)
+            parts.append("%s=b%d+b%d" % (rng.choice(["ns", "ns", "cns"]), a, b))
+        elif q < 0.75:
+            r = ref(rng)                      # consistent pair: both sets of one object
+            parts.append("cs=cs%s" % r)
+            parts.append("ns=ns%s" % r)
         elif q < 0.80:
             parts.append("cs=" + set_expr(rng, "cs"))
             parts.append("ns=" + set_expr(rng, "ns"))
@@ -377,6 +385,13 @@ DIRECTED += [
      ["group cs=b4+b5+b6", "misc #0 x", "reload 0", "group free", "misc #0 z", "reload 0", "misc #1 w"]),
     ("synthetic-restrict-reload-insert", ["filter 19 0", "flags 0", "src synthetic pack:2 core:2 pu:2"],
      ["restrict ~b1 0", "reload 0", "misc #0 x", "restrict ~b2 0", "reload 0", "group cs=b4+b5+b6", "misc #2 y"]),
+    # Groups given by nodeset / complete_nodeset only where NUMA os_index differs from the logical index
+    ("group-by-nodeset-after-restrict-bynodeset", ["flags 0", "src synthetic pack:4 [numa] pu:2"],
+     ["restrict b1+b2+b3 8", "group ns=b1+b2", "group cns=b2+b3 kind=3"]),
+    ("group-by-nodeset-shuffled-indexes", ["flags 0", "src synthetic pack:4 [numa(indexes=2,0,3,1)] pu:2"],
+     ["group ns=b0+b2", "group cns=b1+b3", "group cs=cs#1 ns=ns#1 kind=5"]),
+    ("group-by-nodeset-reversed-numa-level", ["flags 0", "src synthetic numa:4(indexes=3,2,1,0) core:2 pu:1"],
+     ["group ns=b0+b1", "group cs=cs#1+cs#8 ns=ns#1+ns#8", "restrict ~b3 8", "group ns=b1+b2 dm=1"]),
     ("dontmerge-mixed-group-level", ["flags 0", "src synthetic pack:1 core:4 pu:1"],
      ["group cs=b0+b1", "group cs=b2+b3 dm=1", "restrict b0+b2 0"]),
     ("dontmerge-mixed-group-level-reversed", ["flags 0", "src synthetic pack:1 core:6 pu:1"],
